@@ -463,6 +463,59 @@ mod verif_kani {
         check_write_token_order(true, true);
     }
 
+    // ---- C03, taken from the property statement itself: with nothing moved, NOTHING is inserted ---
+    /// the inductive step of "empty rule list reproduces the source byte for byte": the output so
+    /// far is exactly the source up to the token, the token is on its recorded line, no comment is
+    /// open  ==>  after writing the token the output is exactly the source up to the token's end.
+    fn check_source_adjacent(code: &str, ts: usize) {
+        let c = code.as_bytes();
+        let mut g = gen_with(code, &c[..ts], false);
+        let line = g.current_line;
+        let token = Token::new_with_line(ts, c.len(), line);
+        g.write_token_options(&token, true);
+        let out = g.output.as_bytes();
+        assert!(out.len() == c.len(), "C03: with nothing moved, nothing is inserted between two tokens that are adjacent in the source");
+        let mut i = 0;
+        while i < c.len() {
+            assert!(out[i] == c[i], "C03: output is the source, byte for byte");
+            i += 1;
+        }
+        assert!(inv(&g), "C04 invariant");
+        kani::cover!(true);
+        core::mem::forget(g);
+        core::mem::forget(token);
+    }
+
+    //@harness props=C03 kind=bounded fns=TokenBasedLuaGenerator::write_token_options,TokenBasedLuaGenerator::needs_space bound="source = two printable ASCII bytes a b with a token boundary between them; every pair that maximal munch could read together is excluded (over-approximation verif_spec::may_lex_together), and the listed known finding (']', ']') is excluded and checked separately" budget=400
+    //@ desc="byte-for-byte step: output == source[..start], token = source[start..end] on its own line, no open comment ==> output' == source[..end] (no space, no newline inserted)"
+    #[kani::proof]
+    #[kani::unwind(6)]
+    fn vk_tb_write_token_source_adjacent() {
+        let a: u8 = kani::any();
+        let b: u8 = kani::any();
+        kani::assume(!crate::verif_spec::may_lex_together(a, b));
+        kani::assume(!(a == b']' && b == b']')); // known finding, see vk_tb_known_c03_bracket_bracket
+        let buf = [a, b];
+        let code = unsafe { core::str::from_utf8_unchecked(&buf) };
+        check_source_adjacent(code, 1);
+    }
+
+    //@harness props=C03 kind=bounded fns=TokenBasedLuaGenerator::write_token_options,TokenBasedLuaGenerator::needs_space bound="ENUMERATED input: source `]]` with a token boundary in the middle (as in `t[u[1]]`)" budget=300
+    //@ desc="byte-for-byte step on the source text `]]` (two closing brackets, e.g. t[u[1]]): nothing is inserted"
+    #[kani::proof]
+    #[kani::unwind(6)]
+    fn vk_tb_known_c03_bracket_bracket() {
+        check_source_adjacent("]]", 1);
+    }
+
+    //@harness props=C03 kind=bounded fns=TokenBasedLuaGenerator::write_token_options,TokenBasedLuaGenerator::needs_space bound="ENUMERATED input: source `..1` with a token boundary after `..` (as in \"a\"..1)" budget=300
+    //@ desc="byte-for-byte step on the source text `..1` (concatenation operator directly followed by a number): nothing is inserted"
+    #[kani::proof]
+    #[kani::unwind(6)]
+    fn vk_tb_known_c03_concat_digit() {
+        check_source_adjacent("..1", 2);
+    }
+
     //@harness props=C04 kind=mustfail fns=TokenBasedLuaGenerator::push_str
     //@ desc="vacuity witness: the false claim `push_str never changes current_line` must be refuted"
     #[kani::proof]
